@@ -41,7 +41,11 @@ func HarnessC17Seq() {
 	p2 := verifTempPath("c17b.updog")
 	drvBuild(p1, c17Rows)
 	drvBuild(p2, c17RowsB) // different data: an answer taken from the other file is visible
-	dsns := []string{"file:" + p1 + "?lrucache=true&lrucachesize=100000", "file:" + p2 + "?lrucache=true&lrucachesize=100000", "file:" + p1 + "?preload=true"}
+	// a third file is a bbolt database that is not an index: opening it fails, any number of
+	// times, and never blocks this or another data source
+	p3 := verifTempPath("c17_notanindex.updog")
+	verifMakeFile(p3, 1) // an empty file: bbolt initialises it as a database without the index bucket
+	dsns := []string{"file:" + p1 + "?lrucache=true&lrucachesize=100000", "file:" + p2 + "?lrucache=true&lrucachesize=100000", "file:" + p1 + "?preload=true", "file:" + p3}
 	d := newUpdogDriver()
 	var open []*fileConn
 	var openDSN []int
@@ -67,6 +71,10 @@ func HarnessC17Seq() {
 				continue
 			}
 			c, err := drvOpen(d, dsns[which])
+			if which == 3 {
+				verifAssert(err != nil && c == nil, "C17: a file that is not an index was opened as a data source")
+				continue
+			}
 			verifAssert(err == nil, "C17: opening a handle failed")
 			if err != nil {
 				return
@@ -92,6 +100,7 @@ func HarnessC17Seq() {
 		verifAssert(c.Close() == nil, "C17: Close failed")
 	}
 	verifAssert(!verifFlockHeld(p1) && !verifFlockHeld(p2), "C17: a file stays locked after its last handle was closed")
+	verifAssert(!verifFlockHeld(p3), "C17: a file whose open failed stays locked")
 	c, err := drvOpen(d, dsns[0])
 	verifAssert(err == nil, "C17: a file cannot be opened again after its last handle was closed")
 	if err == nil {
